@@ -59,6 +59,8 @@ use Reply::*;
 
 mod structs;
 pub(crate) use structs::*;
+#[cfg(simple_irc_server_verif)]
+pub(crate) mod verif;
 
 pub(crate) struct MainState {
     config: MainConfig,
@@ -182,7 +184,11 @@ impl MainState {
             .process_internal(conn_state)
             .await
             .map_err(|e| e.to_string());
+        #[cfg(simple_irc_server_verif)]
+        verif::before_flush(conn_state);
         conn_state.stream.flush().await.map_err(|e| e.to_string())?;
+        #[cfg(simple_irc_server_verif)]
+        verif::flushed(conn_state);
         res
     }
 
@@ -194,15 +200,21 @@ impl MainState {
     async fn process_internal(&self, conn_state: &mut ConnState) -> Result<(), Box<dyn Error>> {
         tokio::select! {
             Some(msg) = conn_state.receiver.recv() => {
+                #[cfg(simple_irc_server_verif)]
+                verif::taken(conn_state, verif::Kind::Queue);
                 conn_state.stream.feed(msg).await?;
                 Ok(())
             },
             Some(_) = conn_state.ping_receiver.recv() => {
+                #[cfg(simple_irc_server_verif)]
+                verif::taken(conn_state, verif::Kind::Ping);
                 self.feed_msg(&mut conn_state.stream, "PING :LALAL").await?;
                 conn_state.run_pong_timeout(&self.config);
                 Ok(())
             }
             Some(_) = conn_state.timeout_receiver.recv() => {
+                #[cfg(simple_irc_server_verif)]
+                verif::taken(conn_state, verif::Kind::Timeout);
                 info!("Pong timeout for {}", conn_state.user_state.source);
                 self.feed_msg(&mut conn_state.stream,
                             "ERROR :Pong timeout, connection will be closed.").await?;
@@ -210,6 +222,8 @@ impl MainState {
                 Ok(())
             }
             Ok((killer, comment)) = &mut conn_state.quit_receiver => {
+                #[cfg(simple_irc_server_verif)]
+                verif::taken(conn_state, verif::Kind::Kill);
                 info!("User {} killed by {}: {}", conn_state.user_state.source,
                             killer, comment);
                 self.feed_msg(&mut conn_state.stream,
@@ -218,6 +232,8 @@ impl MainState {
                 Ok(())
             }
             Ok(hostname_opt) = &mut conn_state.dns_lookup_receiver => {
+                #[cfg(simple_irc_server_verif)]
+                verif::taken(conn_state, verif::Kind::Dns);
                 #[cfg(feature = "dns_lookup")]
                 if let Some(hostname) = hostname_opt {
                     conn_state.user_state.set_hostname(hostname);
@@ -234,6 +250,8 @@ impl MainState {
             }
 
             msg_str_res = conn_state.stream.next() => {
+                #[cfg(simple_irc_server_verif)]
+                verif::taken(conn_state, verif::Kind::Input);
                 let msg = match msg_str_res {
                     Some(Ok(ref msg_str)) => {
                         // try parse message from this line.
@@ -440,6 +458,8 @@ impl MainState {
 async fn user_state_process(main_state: Arc<MainState>, stream: DualTcpStream, addr: SocketAddr) {
     let line_stream = Framed::new(stream, IRCLinesCodec::new_with_max_length(2000));
     if let Some(mut conn_state) = main_state.register_conn_state(addr.ip(), line_stream) {
+        #[cfg(simple_irc_server_verif)]
+        verif::opened(&mut conn_state, &addr);
         #[cfg(feature = "dns_lookup")]
         if main_state.config.dns_lookup {
             conn_state.run_dns_lookup();
@@ -459,7 +479,11 @@ async fn user_state_process(main_state: Arc<MainState>, stream: DualTcpStream, a
             conn_state.user_state.source
         );
         main_state.remove_user(&conn_state).await;
+        #[cfg(simple_irc_server_verif)]
+        verif::ended(&mut conn_state);
     }
+    #[cfg(simple_irc_server_verif)]
+    verif::task_done(&addr);
 }
 
 #[cfg(feature = "tls_rustls")]
